@@ -85,11 +85,14 @@ func resolveServe(r *Run) *serveParts {
 		if !ok {
 			return
 		}
-		mc, ok := g.Call.Value.(*ssa.MakeClosure)
-		if !ok {
+		var fn *ssa.Function
+		if mc, ok := g.Call.Value.(*ssa.MakeClosure); ok {
+			fn = mc.Fn.(*ssa.Function)
+		} else if callee := staticCallee(&g.Call); callee != nil && callee.Blocks != nil {
+			fn = callee // the goroutine body extracted into a named function or method
+		} else {
 			return
 		}
-		fn := mc.Fn.(*ssa.Function)
 		hs := findCalls(fn, "invoke p9p.Handler.Handle")
 		if len(hs) > 0 {
 			sp.handler, sp.goSite, sp.handle = fn, g, hs[0]
@@ -265,14 +268,10 @@ func checkC06(r *Run) {
 				}
 			}
 			if isDup && tagOwner(c.Call.Args[0]) == sp.reqVal {
-				// and it is sent to the writer
-				for _, rf := range referrers(c) {
-					if sel, ok := rf.(*ssa.Select); ok {
-						for _, st := range sel.States {
-							if st.Dir == types.SendOnly && st.Send == ssa.Value(c) && st.Chan == sp.responses {
-								okDup = true
-							}
-						}
+				// and it is sent to the writer (directly or through a send helper)
+				for _, ss := range p.sendSites(sp.serve) {
+					if ss.Val == ssa.Value(c) && ss.Chan == sp.responses {
+						okDup = true
 					}
 				}
 			}
@@ -607,30 +606,24 @@ func checkC07(r *Run) {
 	r.Check(okUnknown, "flush", "serve: a flush of a tag that is not outstanding is answered with Rerror(unknown tag)", rc.Pos(), "a flush naming an unknown tag gets no (or a wrong) reply")
 	// exactly one send of the phi of those replies, post-dominating
 	nSend := 0
-	eachInstr(sp.serve, func(in ssa.Instruction) {
-		sel, ok := in.(*ssa.Select)
-		if !ok {
-			return
+	for _, ss := range p.sendSites(sp.serve) {
+		if ss.Chan != sp.responses {
+			continue
 		}
-		for _, st := range sel.States {
-			if st.Dir != types.SendOnly || st.Chan != sp.responses {
-				continue
-			}
-			alts := phiAlternatives(st.Send, 3)
-			match := 0
-			for _, a := range alts {
-				for _, rp := range replies {
-					if a == ssa.Value(rp) {
-						match++
-					}
+		alts := phiAlternatives(ss.Val, 3)
+		match := 0
+		for _, a := range alts {
+			for _, rp := range replies {
+				if a == ssa.Value(rp) {
+					match++
 				}
 			}
-			if match == len(alts) && match == 2 {
-				nSend++
-				r.Check(instrDominates(rc, sel) && !reachAvoiding(sel.Block(), sel.Block(), sp.mainSel.Block()), "flush", "serve: the flush reply is sent once, after cancel+delete", sel.Pos(), "the flush reply can be sent more than once or before the entry is removed")
-			}
 		}
-	})
+		if match == len(alts) && match == 2 {
+			nSend++
+			r.Check(instrDominates(rc, ss.In) && !reachAvoiding(ss.In.Block(), ss.In.Block(), sp.mainSel.Block()), "flush", "serve: the flush reply is sent once, after cancel+delete", ss.In.Pos(), "the flush reply can be sent more than once or before the entry is removed")
+		}
+	}
 	r.Check(nSend == 1, "flush", "serve: both flush outcomes reach exactly one send", rc.Pos(), fmt.Sprintf("%d sends carry the flush replies", nSend))
 
 	// (2)+(3) late completions
